@@ -1130,7 +1130,62 @@ class Enumerator:
         es = self._exitstack_desugar(s, st)
         if es is not None:
             return self.exec_block(es, st)
+        cm = self._contextmanager_desugar(s, st)
+        if cm is not None:
+            return self.exec_block(cm, st)
         return self._with_items(list(s.items), s, st)
+
+    def _contextmanager_desugar(self, s: ast.With, st: St):
+        """`with self.m(args) as v: body` where m is a method of the class decorated with contextlib.contextmanager, a generator with
+        exactly one `yield X` statement and no `return <value>`:  m's statements with `yield X` replaced by `v = X ; body` (m's own
+        locals renamed apart) -- which is what the context manager runs: the body executes at the yield point, inside whatever
+        try / finally / with of m surrounds it."""
+        if len(s.items) != 1 or st.selfcls is None:
+            return None
+        it = s.items[0]
+        c = it.context_expr
+        if not (isinstance(c, ast.Call) and isinstance(c.func, ast.Attribute) and isinstance(c.func.value, ast.Name) and c.func.value.id == "self" and not c.keywords and not any(isinstance(a, ast.Starred) for a in c.args)):
+            return None
+        fi = self.cfg.program.find_method(st.selfcls, c.func.attr)
+        if fi is None or not any((dotted(d) or "") in ("contextlib.contextmanager", "contextmanager") for d in fi.node.decorator_list):
+            return None
+        fd = fi.node
+        ys = [n for n in ast.walk(fd) if isinstance(n, (ast.Yield, ast.YieldFrom))]
+        stmts_y = [n for n in ast.walk(fd) if isinstance(n, ast.Expr) and isinstance(n.value, ast.Yield)]
+        if len(ys) != 1 or len(stmts_y) != 1 or any(isinstance(n, ast.Return) and n.value is not None for n in ast.walk(fd)):
+            return None
+        if it.optional_vars is not None and not isinstance(it.optional_vars, ast.Name):
+            return None
+        params = [a.arg for a in fd.args.posonlyargs + fd.args.args][1:]
+        if len(c.args) != len(params) or fd.args.vararg or fd.args.kwarg or fd.args.kwonlyargs:
+            return None
+        body = copy.deepcopy([b for b in fd.body if not (isinstance(b, ast.Expr) and isinstance(b.value, ast.Constant))])
+        own = {n.id for b in body for n in ast.walk(b) if isinstance(n, ast.Name) and isinstance(n.ctx, ast.Store)} | set(params)
+        suffix = f"__cm{s.lineno}"
+        with_body = s.body
+        target = it.optional_vars
+
+        class R(ast.NodeTransformer):
+            def visit_Name(self_, n):
+                return ast.copy_location(ast.Name(n.id + suffix, n.ctx), n) if n.id in own else n
+
+            def visit_Expr(self_, x):
+                if isinstance(x.value, ast.Yield):
+                    val = self_.visit(x.value.value) if x.value.value is not None else ast.Constant(None)
+                    pre = [ast.Assign([ast.Name(target.id, ast.Store())], val)] if target is not None else [ast.Expr(val)]
+                    return pre + list(with_body)
+                return self_.generic_visit(x)
+
+        out = [ast.Assign([ast.Name(p_ + suffix, ast.Store())], a_) for p_, a_ in zip(params, c.args)]
+        for b in body:
+            r = R().visit(b)
+            out.extend(r if isinstance(r, list) else [r])
+        for x in out:
+            for sub in ast.walk(x):
+                if not hasattr(sub, "lineno"):
+                    ast.copy_location(sub, s)
+            ast.fix_missing_locations(x)
+        return out
 
     def _exitstack_desugar(self, s: ast.With, st: St):
         """`with contextlib.ExitStack() as S:` whose body uses S only in the statements `S.callback(f, args..)` and `S.pop_all()`:
@@ -1274,6 +1329,22 @@ class Enumerator:
         else:
             env[k] = ast.Name(new, ast.Load())
         self.emit(st, "freeze", f"{new} = {txt}", None, name=new, of=txt)
+        # a flag read earlier (`claimed = not self._busy`, tested, then the field is overwritten) keeps the truth it had
+
+        def known(e):
+            if isinstance(e, ast.UnaryOp) and isinstance(e.op, ast.Not):
+                v = known(e.operand)
+                return None if v is None else (not v)
+            a_ = self.cfg.canon_atom(render(self.cfg.canon_term(e, st)), st)
+            if a_.startswith("!"):
+                v = st.val.get(a_[1:])
+                return None if v is None else (not v)
+            return st.val.get(a_)
+
+        if not isinstance(t, (ast.List, ast.Tuple)):
+            kv = known(t)
+            if kv is not None:
+                st.val[new] = kv
         for atom in (f"{txt} is None",):
             if atom in st.val:
                 st.val[f"{new} is None"] = st.val[atom]
@@ -2025,8 +2096,10 @@ class Enumerator:
             args = args[1:]  # Base.m(self, ...) form
         is_classmethod = any(isinstance(d, ast.Name) and d.id == "classmethod" for d in fd.decorator_list)
         if is_classmethod and params and selfcls:
-            # cls is the class the method was called on
-            env[params[0]] = ast.Name(selfcls, ast.Load())
+            # cls is the class the method was called on; called through an instance (`self.m()`), what it reaches through cls
+            # (other class / static methods, class attributes) is what the instance reaches through self
+            via_self = isinstance(call.func, ast.Attribute) and isinstance(call.func.value, ast.Name) and call.func.value.id == "self"
+            env[params[0]] = ast.Name("self" if via_self else selfcls, ast.Load())
             params = params[1:]
         elif is_method and params:
             first = params[0]
@@ -2252,6 +2325,11 @@ class Enumerator:
                 pending = nxt
             res.extend((s2, is_and) for s2 in pending)
             return res
+        # a concatenation with an operand already known to be non-empty is non-empty (`src + tail` after `if src:`)
+        if isinstance(t, ast.BinOp) and isinstance(t.op, ast.Add):
+            for side in (t.left, t.right):
+                if isinstance(side, (ast.Name, ast.Attribute)) and st.val.get(self.cfg.canon_atom(render(self.cfg.canon_term(side, st)), st)) is True:
+                    return [(st, True != neg)]
         # exception errno tests
         dec = self._errno_test(t, st)
         if dec is not None:
